@@ -218,8 +218,10 @@ def unit_fmt(ctx, config, U):
     outs, b, _ = G.summarize(U, G.UNIT + "fmt", set())
     self_, form = S.P(0, "self"), S.P(1, "form")
     t = T.canon(outs[0][2]) if len(outs) == 1 and not outs[0][0] else None
-    ok = t is not None and t[0] == "app" and t[1] == DISPLAY_FMT and t[3] == (T.canon(S.app("Unit::symbol", self_)), form)
-    ctx.ob("unit-fmt", config, ok, "Unit::fmt is %s, expected Display::fmt(symbol, caller's formatter)" % (T.show(t) if t else outs), b["span"])
+    sym = T.canon(S.app("Unit::symbol", self_))
+    # `<str as Display>::fmt(s, f)` is `f.pad(s)` (std): both spellings are "the symbol under ordinary string formatting rules"
+    ok = t is not None and t[0] == "app" and ((t[1] == DISPLAY_FMT and t[3] == (sym, form)) or (t[1] == "core::fmt::Formatter::<'a>::pad" and t[3] == (form, sym)))
+    ctx.ob("unit-fmt", config, ok, "Unit::fmt is %s, expected Display::fmt(symbol, caller's formatter) (or the equivalent formatter.pad(symbol))" % (T.show(t) if t else outs), b["span"])
 
 
 def rate_fmt(ctx, config, U):
